@@ -1,5 +1,5 @@
 (* C17 - SemiSeekableBuffer: the stream-fidelity invariant and its preservation. *)
-From Coq Require Import List Bool NArith Arith Lia.
+From Coq Require Import List Bool NArith ZArith Arith Lia.
 From PV Require Import Common.Cases C17.Model C17.Spec C17.ProofsData.
 Import ListNotations.
 Local Open Scope N_scope.
@@ -181,11 +181,11 @@ Lemma buffer_histories : forall ops acc b cur len,
   binv (spec_stream acc (trace KBuf ops (mkw b cur len)))
        (w_buf (run_state KBuf ops (mkw b cur len))) /\
   b_pos (w_buf (run_state KBuf ops (mkw b cur len))) =
-    spec_cursor (b_pos b) (trace KBuf ops (mkw b cur len)).
+    spec_cursor 0 (b_pos b) (trace KBuf ops (mkw b cur len)).
 Proof.
   induction ops as [|o ops IH]; intros acc b cur len Hb Hap; [simpl; auto|].
   inversion Hap as [|? ? Ho Hap']; subst.
-  cbn [trace run_state]. destruct o as [d|n|n|p st|v|n cap]; cbn [step w_buf with_buf w_cur w_len].
+  cbn [trace run_state]. destruct o as [d|n|n|p st|z wh|v|n cap]; cbn [step w_buf with_buf w_cur w_len].
   - (* add *)
     pose proof (add_spec acc d b Hb) as S. destruct (buf_add d b) as [r b'].
     destruct S as (Hk & Hb' & Hp & _). cbn [snd buf_spec spec_stream spec_cursor with_buf w_cur w_len].
@@ -204,6 +204,10 @@ Proof.
     + destruct (seek_true acc p b b' Hb E) as (Hp & Hb' & _).
       destruct (IH _ b' cur len Hb' Hap') as (T1 & T2 & T3). rewrite Hp in T1, T3. auto.
     + apply seek_false in E. subst b'. apply IH; auto.
+  - (* seek to a negative offset: refused, nothing changes *)
+    simpl in Ho. destruct Ho as [Hneg ->]. cbn [N.eqb]. unfold buf_seek_z.
+    replace (z <? 0)%Z with true by (symmetry; apply Z.ltb_lt; exact Hneg).
+    cbn [snd buf_spec spec_stream spec_cursor with_buf w_buf w_cur w_len]. apply IH; auto.
   - (* protect *)
     destruct (buf_protect v b) as [b'|] eqn:E; cbn [snd buf_spec spec_stream spec_cursor with_buf w_cur w_len].
     + destruct (protect_spec acc v b b' Hb E) as (Hb' & Hp & _).
